@@ -68,8 +68,15 @@ def scenario_for(seed, index, tier):
         return {
             'kind': 'concurrent-registration', 'proto': proto,
             'n': rng.choice([3, 8, 20]), 'early': rng.random() < 0.5,
+            # the late listeners ask for the packet's own class, for a
+            # super-class of it, or alternately; and a packet of that class
+            # may already have passed before they are registered
+            'filter': rng.choice(['exact', 'super', 'mixed']),
             'server': {'conns': [{'login': [['success']],
-                                  'play': [['ka', 1]]}]},
+                                  'play': ([['chat', '{"text":"before"}', 0,
+                                             UUID0]]
+                                           if rng.random() < 0.6 else []) +
+                                  [['ka', 1]]}]},
             'net': {'latency_us': rng.choice([50, 500])},
             'sched': {'granularity': 'line', 'max_steps': 400000},
             'listeners': [], 'history': [], 'writes': [], 'login': [],
@@ -368,18 +375,27 @@ def execute_registration(scenario, tape):
                               [] if st.get('closing') else
                               st['errs']).append(e))
 
+        from minecraft.networking.packets import Packet
+
         def late(tag):
             def cb_(p):
-                st['calls'].append(tag)
+                if isinstance(p, cb.play.ChatMessagePacket) and \
+                        'probe' in p.json_data:
+                    st['calls'].append(tag)
             return cb_
+
+        def cls(i):
+            f = scenario.get('filter', 'exact')
+            if f == 'super' or (f == 'mixed' and i % 2):
+                return Packet
+            return cb.play.ChatMessagePacket
 
         def on_ka(p):
             if st['net_done']:
                 return
             for i in range(n):
                 conn.register_packet_listener(
-                    late(('net', i)), cb.play.ChatMessagePacket,
-                    early=scenario['early'])
+                    late(('net', i)), cls(i), early=scenario['early'])
             st['net_done'] = True
         conn.register_packet_listener(on_ka, cb.play.KeepAlivePacket)
         conn.register_packet_listener(
@@ -391,8 +407,7 @@ def execute_registration(scenario, tape):
             w.wait_until(lambda: st['in_play'] or st['errs'], 30000000)
             for i in range(n):
                 conn.register_packet_listener(
-                    late(('user', i)), cb.play.ChatMessagePacket,
-                    early=scenario['early'])
+                    late(('user', i)), cls(i), early=scenario['early'])
             st['user_done'] = True
             w.wait_until(lambda: st['net_done'] or st['errs'], 30000000)
             app = w.server.apps[0]
